@@ -13,6 +13,7 @@ import (
 	"strconv"
 	"strings"
 	"sync"
+	"syscall"
 	"time"
 
 	"golang.org/x/sync/semaphore"
@@ -167,6 +168,10 @@ func setDiff(a, b map[string]bool) (onlyA, onlyB []string) {
 	return
 }
 
+// FIFOs whose write side must stay open for the life of the process (see path 2b)
+var heldFifos []*os.File
+var fifoOK = true
+
 func baseConf() conf.Configuration {
 	return conf.Configuration{Id: "verif", SourceType: conf.RedisTypeStandalone, TargetType: conf.RedisTypeStandalone, SourceAuthType: "auth", TargetAuthType: "auth",
 		SourcePasswordRaw: e2eSrcPw, TargetPasswordRaw: e2eTgtPw, Parallel: 3, HttpProfile: -1, TargetDB: -1, SenderCount: 8, SenderSize: 65535, SenderDelayChannelSize: 65535,
@@ -249,6 +254,53 @@ func runC06paths(r resIface, cfg *c06cfg, rng *prng.R, scratch string, idx int) 
 			scriptsLoaded["sync"] = len(srv.Scripts)
 		}
 	}
+	// ---- 1b. full sync of keys that reach the workers in several pieces: a hash above the 16 MiB chunk limit is handed
+	// to the parallel workers as consecutive records carrying the same key, and every one of them needs the key's verdict
+	if (len(cfg.KeyBlack) > 0 || len(cfg.KeyWhite) > 0) && (idx < 16 && (idx == 4 || idx == 6 || idx == 7) || idx >= 16 && idx%3 == 0) {
+		cfg.apply(baseConf())
+		conf.Options.KeyExists = "none"
+		srv, tcp := newTarget()
+		bf := &rdbgen.File{Version: 9}
+		small := func(name string) {
+			bf.Items = append(bf.Items, rdbgen.Item{Key: &rdbgen.KeySpec{DB: 0, Key: []byte(name), Val: &rdbgen.Value{Kind: "string", Str: []byte("v")}, Enc: "raw"}})
+		}
+		big := func(name string) {
+			hv := &rdbgen.Value{Kind: "hash"}
+			for q := 0; q < 58; q++ {
+				val := bytes.Repeat([]byte{byte('a' + q%26)}, 600000)
+				hv.Hash = append(hv.Hash, [2][]byte{[]byte(fmt.Sprintf("f%d", q)), val})
+			}
+			bf.Items = append(bf.Items, rdbgen.Item{Key: &rdbgen.KeySpec{DB: 0, Key: []byte(name), Val: hv, Enc: "table"}})
+		}
+		for q := 0; q < 6; q++ {
+			small(fmt.Sprintf("ok:s%d", q))
+			small(fmt.Sprintf("k%d", q))
+		}
+		big("no:bighash")
+		small("ok:between")
+		big("other-bighash")
+		for q := 0; q < 6; q++ {
+			small(fmt.Sprintf("ok:t%d", q))
+		}
+		bdata, _ := rdbgen.Build(rng, bf, 0)
+		node := &slot.SyncNode{Id: idx*10 + 2, Source: "127.0.0.1:1", Target: []string{tcp.Addr}, TargetPassword: e2eTgtPw, SlotLeftBoundary: -1, SlotRightBoundary: -1}
+		ds := dbSync.NewDbSyncer(node, -1, semaphore.NewWeighted(1))
+		err := ds.VerifSyncRDBFile(bufio.NewReaderSize(bytes.NewReader(bdata), 1<<16), []string{tcp.Addr}, "auth", e2eTgtPw, int64(len(bdata)), false)
+		r.Case(fmt.Sprintf("%s|sync-chunked", cfg.Name))
+		r.Count("sync_runs_with_chunked_keys", 1)
+		ref := cfg.ref()
+		got := targetSet(srv)
+		for _, name := range []string{"no:bighash", "other-bighash"} {
+			if ref.KeyExcluded([]byte(name)) && got[keyID(0, name)] {
+				nf := 0
+				if e := srv.Raw(0, name); e != nil {
+					nf = e.Val.Elements()
+				}
+				r.Violation(sig("sync", "excluded-key-reached-target|chunked"), fmt.Sprintf("full sync under %s with parallel %d: %d fields of the excluded hash %q (above the chunk limit: several records) reached the target (run returned %v)", cfg.Name, conf.Options.Parallel, nf, name, err), cfg)
+			}
+		}
+		tcp.Close()
+	}
 	// ---- 2. restore mode
 	{
 		c := baseConf()
@@ -266,6 +318,134 @@ func runC06paths(r resIface, cfg *c06cfg, rng *prng.R, scratch string, idx int) 
 			scriptsLoaded["restore"] = len(srv.Scripts)
 		case <-time.After(60 * time.Second):
 			r.Inconcl("restore path watchdog")
+		}
+	}
+	// ---- 2b. restore mode's command phase (extra=true): the input is what dump mode writes with extra=true - the RDB
+	// followed by the source's command stream. It arrives through a FIFO whose write side stays open, because the phase
+	// has no end (at end of input the tool exits). Keys of this phase carry a "#c" suffix (prefix rules are unaffected).
+	if fifoOK {
+		c := baseConf()
+		fifo := filepath.Join(scratch, fmt.Sprintf("c06-%d.fifo", idx))
+		os.Remove(fifo)
+		if err := syscall.Mkfifo(fifo, 0600); err != nil {
+			r.Inconcl("mkfifo: " + err.Error())
+		} else if hold, err := os.OpenFile(fifo, os.O_RDWR, 0); err != nil {
+			r.Inconcl("open fifo: " + err.Error())
+		} else {
+			heldFifos = append(heldFifos, hold) // never closed, never collected: EOF would end the process
+			defer os.Remove(fifo)
+			srv, tcp := newTarget()
+			c.SourceRdbInput, c.TargetAddressList, c.Type, c.ExtraInfo = []string{fifo}, []string{tcp.Addr}, conf.TypeRestore, true
+			cfg.apply(c)
+			go (&run.CmdRestore{}).Main()
+			ref := cfg.ref()
+			var cmds []srcCmd
+			wantKeys, wantScripts := map[string]bool{}, 0
+			keyFiltered, ckptKeys := map[string]bool{}, map[string]bool{}
+			cur := -1
+			endDB := -1
+			for i, k := range ks {
+				if k.DB != cur {
+					cur = k.DB
+					cmds = append(cmds, srcCmd{Name: rng.PickS("SELECT", "select"), Args: [][]byte{[]byte(strconv.Itoa(cur))}})
+				}
+				name := k.Key + "#c"
+				cmds = append(cmds, srcCmd{Name: rng.PickS("SET", "set"), Args: [][]byte{[]byte(name), []byte("v")}})
+				if !ref.DBExcluded(cur) {
+					endDB = cur
+					switch {
+					case isCkpt(name):
+						ckptKeys[keyID(cur, name)] = true // never copied by restore
+					case ref.KeyExcluded([]byte(name)):
+						keyFiltered[keyID(cur, name)] = true
+					default:
+						wantKeys[keyID(cur, name)] = true
+					}
+				}
+				switch i % 9 {
+				case 3:
+					cmds = append(cmds, srcCmd{Name: "EVAL", Args: [][]byte{[]byte("return 1"), []byte("0")}})
+					if !cfg.Lua && !ref.DBExcluded(cur) {
+						wantScripts++
+					}
+				case 7:
+					cmds = append(cmds, srcCmd{Name: "opinfo", Args: [][]byte{[]byte("x")}})
+				case 8:
+					cmds = append(cmds, srcCmd{Name: "PING"})
+				}
+			}
+			// the last command of the stream runs in a database that passes: once it is visible everything before it was handled
+			cmds = append(cmds, srcCmd{Name: "SELECT", Args: [][]byte{[]byte(strconv.Itoa(endDB))}}, srcCmd{Name: "SET", Args: [][]byte{[]byte("zz-end-of-stream"), []byte("v")}})
+			go hold.Write(append(append([]byte{}, data...), streamBytes(cmds)...))
+			endID := keyID(endDB, "zz-end-of-stream")
+			if endDB < 0 || !waitUntil(20*time.Second, func() bool { return targetSet(srv)[endID] }) {
+				if endDB >= 0 {
+					r.Violation(sig("restore-command-phase", "stream-not-forwarded"), fmt.Sprintf("restore with extra=true under %s: the last command of the stream (db %d, which passes) never reached the target", cfg.Name, endDB), cfg)
+				}
+			} else {
+				got := map[string]bool{}
+				for id := range targetSet(srv) {
+					if strings.HasSuffix(id, "#c\"") {
+						got[id] = true
+					}
+				}
+				nScripts, nOpinfo := 0, 0
+				srv.Mu.Lock()
+				for _, l := range srv.Log {
+					switch l.Name {
+					case "eval": // SCRIPT LOAD also comes from the RDB phase (the file's Lua scripts): only EVAL is sent by the stream
+						nScripts++
+					case "opinfo":
+						nOpinfo++
+					}
+				}
+				srv.Mu.Unlock()
+				r.Case(fmt.Sprintf("%s|restore-command-phase", cfg.Name))
+				r.Count("restore_command_phase_runs", 1)
+				rep := map[string]interface{}{"config": cfg, "path": "restore-command-phase"}
+				var wrongDB, missing, filteredIn, ckptIn []string
+				for id := range got {
+					switch {
+					case wantKeys[id]:
+					case keyFiltered[id]:
+						filteredIn = append(filteredIn, id)
+					case ckptKeys[id]:
+						ckptIn = append(ckptIn, id)
+					default:
+						wrongDB = append(wrongDB, id)
+					}
+				}
+				for id := range wantKeys {
+					if !got[id] {
+						missing = append(missing, id)
+					}
+				}
+				sort.Strings(wrongDB)
+				sort.Strings(missing)
+				sort.Strings(filteredIn)
+				sort.Strings(ckptIn)
+				if len(wrongDB) > 0 {
+					r.Violation(sig("restore-command-phase", "excluded-database-reached-target"), fmt.Sprintf("restore with extra=true under %s: commands of excluded databases were forwarded: %v", cfg.Name, wrongDB[:minI(len(wrongDB), 6)]), rep)
+				}
+				if len(missing) > 0 {
+					r.Violation(sig("restore-command-phase", "passing-key-missing"), fmt.Sprintf("restore with extra=true under %s: not excluded but never arrived: %v", cfg.Name, missing[:minI(len(missing), 6)]), rep)
+				}
+				// one signature per rule, whatever the configuration: what fails is the phase, not the configuration
+				if len(filteredIn) > 0 {
+					r.Violation("C06|path=restore-command-phase|outcome=key-lists-not-applied", fmt.Sprintf("restore with extra=true under %s: keys excluded by the key lists were forwarded by the command phase: %v", cfg.Name, filteredIn[:minI(len(filteredIn), 6)]), rep)
+				}
+				if len(ckptIn) > 0 {
+					r.Violation("C06|path=restore-command-phase|outcome=checkpoint-key-copied", fmt.Sprintf("restore with extra=true under %s: checkpoint keys were forwarded by the command phase: %v", cfg.Name, ckptIn[:minI(len(ckptIn), 6)]), rep)
+				}
+				if nScripts > wantScripts {
+					r.Violation("C06|path=restore-command-phase|outcome=script-command-forwarded-under-filter-lua", fmt.Sprintf("restore with extra=true under %s: %d script commands reached the target, expected %d (filter.lua=%v)", cfg.Name, nScripts, wantScripts, cfg.Lua), rep)
+				} else if nScripts < wantScripts {
+					r.Violation(sig("restore-command-phase", "script-command-dropped"), fmt.Sprintf("restore with extra=true under %s: %d script commands reached the target, expected %d", cfg.Name, nScripts, wantScripts), rep)
+				}
+				if nOpinfo > 0 {
+					r.Violation("C06|path=restore-command-phase|outcome=bookkeeping-command-forwarded", fmt.Sprintf("restore with extra=true under %s: %d opinfo commands reached the target", cfg.Name, nOpinfo), rep)
+				}
+			}
 		}
 	}
 	// ---- 3. rump
@@ -496,7 +676,7 @@ func c06pathsChild(raw json.RawMessage, scratch string) {
 
 func c06(c *wk.Ctx) {
 	r := c.R
-	r.Rule = "(a) predicate level: FilterKey/FilterDB/FilterSlot/FilterCommands against the reference on generated keys (arbitrary bytes, every listed prefix truncated/extended by one byte, hash tags, the checkpoint key and its shard variants), database numbers and command names in any letter case, under every list configuration; (b) path level: one keyspace (4 databases, prefix neighbours, checkpoint keys, binary keys, 2 Lua scripts) pushed through full sync (hook), restore mode, rump and the incremental parser+sender under 11 configurations (none, key black/white list, db black/white list, slot list, filter.lua, combinations, a whitelist that covers the checkpoint prefix); arrival sets compared with the reference per path and pairwise; script commands / Lua scripts / opinfo counted. distinct = (configuration, path) + predicate classes"
+	r.Rule = "(a) predicate level: FilterKey/FilterDB/FilterSlot/FilterCommands against the reference on generated keys (arbitrary bytes, every listed prefix truncated/extended by one byte, hash tags, the checkpoint key and its shard variants), database numbers and command names in any letter case, under every list configuration; (b) path level: one keyspace (4 databases, prefix neighbours, checkpoint keys, binary keys, 2 Lua scripts) pushed through full sync (hook), restore mode, rump and the incremental parser+sender under 11 configurations (none, key black/white list, db black/white list, slot list, filter.lua, combinations, a whitelist that covers the checkpoint prefix); arrival sets compared with the reference per path and pairwise; script commands / Lua scripts / opinfo counted; key-list configurations also sync hashes above the chunk limit; restore mode's command phase (extra=true) through a FIFO, judged per rule. distinct = (configuration, path) + predicate classes"
 	rng := c.Rng
 	// ---- (a) predicates, in-process
 	prefixes := []string{"no:", "tmp", "ok:", "k", "redis-shake", "a\xffb", ""}
@@ -588,6 +768,8 @@ func c06(c *wk.Ctx) {
 	wk.Parallel(n, 11, func(i int) {
 		wk.RunBatch(c, "c06paths", i, i+1, nil, 20*time.Minute, onDeath)
 	})
+	r.Floor("sync_runs_with_chunked_keys", 3)
+	r.Floor("restore_command_phase_runs", 12)
 	r.Floor("path_runs", 40)
 	r.Floor("pairwise_agreements", 30)
 	r.Floor("predicate_evaluations", 100000)
